@@ -205,6 +205,10 @@ def scale_spec(draw, tier):
                          "l2_slots": {}, "l2_reverse": False, "meta_order": draw(st.permutations(["l1", "refcount", "snap", "l2"])),
                          "meta_gap": 0, "far_base": draw(st.sampled_from([1 << 32, 1 << 40, min(1 << 50, 1 << (62 - (cb - 8) - 2)), 0])), "copied": True, "l1_extra": 0,
                          "comp_shift": 7, "cgaps": [0, 300], "comp_far": 0, "layer": 0}
+        # the same image read through the view of an internal snapshot that shares the active L1 table
+        if draw(st.sampled_from([False, False, True])):
+            spec["image"]["snapshots"] = [{"id": "1", "name": "view", "extra_size": 16, "clusters": [], "share_active": True}]
+            spec["image"]["via_snapshot"] = True
         unit = cs
         units = idx
     spec["unit"] = unit
@@ -220,6 +224,10 @@ def scale_spec(draw, tier):
     for a, (fsec, cnt) in spec.get("request_runs", [])[:3]:
         ss_ = spec["image"]["sector_size"]
         reqs.append([a * unit + max(0, fsec - 1) * ss_, (cnt + 2) * ss_])
+    if draw(st.booleans()):
+        # the first requests once more, one sector on: mapping tables fetched for the first pass are not fetched again
+        reqs += [[min(size - 1, off + 512), n] for off, n in reqs[:3]]
+        spec["repeat"] = True
     spec["requests"] = reqs
     spec["bulk_first"] = draw(st.integers(0, 1 << 30))
     return spec
@@ -367,6 +375,9 @@ def build_and_open(fmt, im):
 
     fh, dfh, bfh, layers, meta = bq.build(im)
     s, err = lib(QCow2, fh)
+    if not err and im.get("via_snapshot"):
+        s, err = lib(lambda: s.snapshots[0].open())
+        meta = dict(meta, metadata_bytes=meta["metadata_bytes"] + meta["l1_size"] * 8)  # the view loads the (shared) L1 table itself
     return [fh], s, err, layers["active"], meta
 
 
